@@ -107,6 +107,9 @@ let () =
            | ["getdata"; name; ff; fs; nf; ns; szr] -> M.CGetData (coq_string name, zs ff, zs fs, zs nf, zs ns, zs szr)
            | ["add"; name; frag; v] -> M.CAddConst (coq_string name, zs frag, zs v)
            | ["del"; name] -> M.CDelete (coq_string name)
+           | ["rename"; name; nn] -> M.CRename (coq_string name, coq_string nn)
+           | ["move"; name; frag] -> M.CMove (coq_string name, zs frag)
+           | ["altc"; name; len] -> M.CAlterCarray (coq_string name, zs len)
            | _ -> failwith "bad call") in
          let (s', o) = M.gen_step !state c in
          state := s';
